@@ -83,7 +83,7 @@ func (m *vfModel) credsOf(ctx *vfReqCtx) []vfCred {
 			if ci.Kind == "cli" {
 				valid = valid && true
 			}
-			out = append(out, vfCred{Kind: "cookie", Subject: ci.Subject, Proven: ci.Proven, AuthAt: ci.AuthAt, Valid: valid})
+			out = append(out, vfCred{Kind: "cookie", Subject: ci.Subject, Proven: ci.Carried, AuthAt: ci.AuthAt, Valid: valid})
 		}
 	}
 	if ctx.req.Cert != nil && !ctx.req.NoTLS {
